@@ -254,8 +254,10 @@ type teResult struct {
 }
 
 func isUnicodeSpaceTrimmedChunked(tok string) bool {
-	t := strings.ToLower(strings.TrimSpace(tok)) // only used to NAME the finding, not to judge
-	return t == "chunked" && strings.ToLower(tok) != "chunked"
+	// only used to NAME the finding, not to judge: an invalid coding name that a
+	// Unicode-space trimmer would turn into a token
+	t := strings.TrimSpace(tok)
+	return t != tok && isToken(t)
 }
 
 func analyzeTE(vals []string) teResult {
@@ -328,8 +330,12 @@ func classifyBadCL(v string) string {
 		return "cl-plus-sign"
 	case v[0] == '-' && allDigits(v[1:]) && strings.Trim(v[1:], "0") == "":
 		return "cl-minus-zero"
-	case allDigits(strings.TrimSpace(v)):
-		return "cl-nonstd-ws"
+	}
+	// naming only: padding that a Unicode-space trimmer would remove
+	if t := strings.TrimSpace(v); t != v {
+		if t == "" || allDigits(t) || (t[0] == '+' || t[0] == '-') && allDigits(t[1:]) {
+			return "cl-nonstd-ws"
+		}
 	}
 	return "cl-invalid"
 }
